@@ -139,6 +139,10 @@ def coq_term(case, obs):
         n = len(runs[0][0]["pairs"]) if fl is None else fl + 1
         xs = [G.lst([c06.input_term(yt, yp, r) for (yt, yp), r in list(zip(c["pairs"], o["rows"]))[:n]]) for c, o in runs]
         t += f" && chk_lfr_pair {xs[0]} {xs[1]}"
+    if case["det"] == "LinearFourRates" and case["kind"] == "warn" and all("rows" in o for _, o in runs):
+        # hypothesis of C17_lfr_warning_loosening on the logged oracle rows of the whole run ("loose" = looser warning)
+        xs = [G.lst([c06.input_term(yt, yp, r) for (yt, yp), r in zip(c["pairs"], o["rows"])]) for c, o in runs]
+        t += f" && chk_lfr_wpair {xs[0]} {xs[1]}"
     return t
 
 
